@@ -374,6 +374,9 @@ func runC17(c *eng.Ctx) {
 	c.Rule("R16.8", "K6")
 	ruleStreamConfigPlumbing(c, "Encryption")
 	c.Floor(2)
+	// ---- R15.8 (shared) the configuration keys this property's switches hang on reach their fields
+	ruleConfigWiring(c, "R15.8")
+
 }
 
 // callers of os.Getenv outside server/encryption are not this rule's business; list them so that only new callers
